@@ -229,6 +229,30 @@ def assumptions_from_log(log):
     return blocks
 
 
+CURRENT_TIER = 'quick'
+
+
+def coqchk(prop_files):
+    """thorough tier: re-check the compiled property files and everything they depend on with the independent checker;
+    returns (ok, axioms listed, tail of the output)"""
+    mods = ['SV.' + f.replace('.v', '') for f in prop_files]
+    try:
+        rc, out, err = sh(['coqchk', '-silent', '-o', '-R', '.', 'SV'] + mods, cwd=COQ, timeout=3000)
+    except subprocess.TimeoutExpired:
+        return False, ['coqchk timed out'], ''
+    text = out + err
+    axioms = []
+    m = re.search(r'\* Axioms:\s*(.*?)\n\s*\n|\* Axioms:\s*(.*?)\* ', text, re.S)
+    block = ''
+    if '* Axioms:' in text:
+        block = text.split('* Axioms:', 1)[1]
+        for stop in ('* Constants/Inductives relying on', '* Constants', '* Inductives'):
+            if stop in block:
+                block = block.split(stop, 1)[0]
+        axioms = [l.strip() for l in block.split('\n') if l.strip() and l.strip() != '<none>']
+    return rc == 0, axioms, text[-1500:]
+
+
 def prove(prop_files, extra_targets=()):
     """Builds the property files' .vo (incrementally). Returns dict with obligations/discharged/assumptions/log."""
     targets = [f.replace('.v', '.vo') for f in prop_files] + list(extra_targets)
@@ -251,7 +275,15 @@ def prove(prop_files, extra_targets=()):
         else:
             failed.append(f)
     bad = forbidden_scan()
+    chk = None
+    if CURRENT_TIER == 'thorough' and ok and not failed:
+        cok, axioms, tail = coqchk(prop_files)
+        chk = {'ok': cok, 'axioms': axioms}
+        if not cok or axioms:
+            ok = False
+            log += '\ncoqchk: ok=%s axioms=%s\n%s' % (cok, axioms, tail)
     return {
+        'coqchk': chk,
         'ok': ok and not failed and not bad,
         'obligations': len(names),
         'discharged': discharged if not bad else 0,
@@ -352,6 +384,9 @@ class Report:
 
     def set_proof(self, pr):
         self.proof = pr
+        if pr.get('coqchk') is not None:
+            self.notes['coqchk'] = 'independent checker (coqchk -o) on the property file and all its dependencies: ok=%s, axioms=%s' % (
+                pr['coqchk']['ok'], pr['coqchk']['axioms'] or 'none')
 
     def finish(self, level='proof', checker_cmd='', explanation=''):
         known = load_findings()
@@ -364,7 +399,7 @@ class Report:
         if self.proof is not None and not self.proof['ok']:
             summary = coq_error_summary(self.proof['log'])
             self.broken_obligation(','.join(self.proof['failed_files']) or 'forbidden-declaration-scan',
-                                   {'errors': summary, 'forbidden': self.proof['forbidden']})
+                                   {'errors': summary, 'forbidden': self.proof['forbidden'], 'coqchk': self.proof.get('coqchk')})
         for v in self.violations:
             kf = match_finding(known, self.prop, v)
             if kf is not None:
